@@ -147,7 +147,9 @@ ElemPlansOf(F, raw, small) ==
 FieldPlans(F, raw, small) ==
   LET ett == IF F.kind \in {"primlist", "primmap"} THEN TPrim(F.tfty) ELSE IF F.msg # NoMsg THEN SubOf(F).tt ELSE TNone
       ab == ElemPlansOf(F, raw, small)
-  IN CASE F.kind \in {"prim"} -> IF small THEN {VPrim(F.tfty, TRUE, FALSE, ZeroOfTf(F.tfty)), VPrim(F.tfty, FALSE, FALSE, NonZeroA(F.cls))}
+  IN CASE F.kind \in {"prim"} -> IF small THEN {VPrim(F.tfty, TRUE, FALSE, ZeroOfTf(F.tfty)), VPrim(F.tfty, FALSE, FALSE, NonZeroA(F.cls)),
+                                                \* (unknown is not null: "known after apply" is what a computed attribute looks like in a plan)
+                                                VPrim(F.tfty, FALSE, TRUE, ZeroOfTf(F.tfty))}
                                  ELSE PrimPlans(F.tfty, F.cls, raw)
        \* (the harness's hooks present a custom-type field as a String attribute: null, unknown, known)
        [] F.kind = "custom" -> {VPrim("string", TRUE, FALSE, ""), VPrim("string", FALSE, TRUE, ""), VPrim("string", FALSE, FALSE, "6375")}
